@@ -485,22 +485,16 @@ func execShuffle(c *core.Ctx, cs Case) {
 	n := len(cs.Ints)
 	global := cs.Fn == "Shuffle"
 	out := append([]int{}, cs.Ints...)
-	again := append([]int{}, cs.Ints...)
+	// a swap sequence of a real rand.Shuffle of this length, only to run the model on (its result is
+	// not compared with the implementation's: the property does not say which permutation comes out)
 	var swaps [][2]int
-	record := func(i, j int) { swaps = append(swaps, [2]int{i, j}) }
+	rand.New(rand.NewSource(cs.Seed)).Shuffle(n, func(i, j int) { swaps = append(swaps, [2]int{i, j}) })
 	var kind string
 	if global {
-		// the global generator, seeded the same way three times
-		rand.Seed(cs.Seed)
-		rand.Shuffle(n, record)
-		rand.Seed(cs.Seed)
+		// the global generator, in whatever state it is: only "a permutation" is specified
 		kind = core.Try(func() { slices.Shuffle(out) })
-		rand.Seed(cs.Seed)
-		slices.Shuffle(again)
 	} else {
-		rand.New(rand.NewSource(cs.Seed)).Shuffle(n, record)
 		kind = core.Try(func() { slices.ShuffleRand(out, rand.New(rand.NewSource(cs.Seed))) })
-		slices.ShuffleRand(again, rand.New(rand.NewSource(cs.Seed)))
 	}
 	if kind != "" {
 		fail(c, cs.Fn+" panics", kind)
@@ -520,8 +514,23 @@ func execShuffle(c *core.Ctx, cs Case) {
 	if !ok {
 		fail(c, cs.Fn+": result is not a permutation of the input", fmt.Sprintf("%v -> %v", cs.Ints, out))
 	}
-	if !core.Eq(out, again) {
-		fail(c, cs.Fn+": equal generator states gave different results", fmt.Sprintf("%v vs %v", out, again))
+	if !global {
+		// a deterministic function of the supplied generator: an equal generator (same seed) gives
+		// the same result, whatever happened to the global generator in between
+		rand.Int()
+		again := append([]int{}, cs.Ints...)
+		slices.ShuffleRand(again, rand.New(rand.NewSource(cs.Seed)))
+		if !core.Eq(out, again) {
+			fail(c, cs.Fn+": equal generators gave different results", fmt.Sprintf("%v vs %v", out, again))
+		}
+		// informational only: does it make exactly the swaps of one rand.Shuffle(len) call?
+		ref := append([]int{}, cs.Ints...)
+		for _, sw := range swaps {
+			ref[sw[0]], ref[sw[1]] = ref[sw[1]], ref[sw[0]]
+		}
+		if core.Eq(ref, out) {
+			c.Count("shufflerand_equals_one_rand_Shuffle_call")
+		}
 	}
 	if n > 2 {
 		c.Nontrivial()
